@@ -75,7 +75,13 @@ def native_layout(binary):
     for got, (pos, want, what) in zip(out4, TWO_PROJECTS_PROBES):
         if got != want:
             problems.append('%s: go-to-definition at %s of b/src/b.gleam lands on %s, expected %s' % (what, pos, got, want))
-    return problems, out + out2 + out3 + out4
+    from . import c08
+    out5, alive5 = lsp_replay.workspace_scenario(binary, c08.DEVDEP_FILES, 'test/app_test.gleam', [(3, 10)], pre_open=['src/app.gleam'])
+    if not alive5:
+        problems.append('the server died on the project with a dev-dependency')
+    if out5 != ['build/packages/devdep/src/devdep.gleam']:
+        problems.append('a dev-dependency (build/packages/devdep, listed under [dev-dependencies]) is importable from test/: go-to-definition at (3, 10) of test/app_test.gleam lands on %s, expected build/packages/devdep/src/devdep.gleam' % out5)
+    return problems, out + out2 + out3 + out4 + out5
 
 
 def native_names(oracle, samples):
